@@ -445,6 +445,83 @@ def run(ctx):
                                           'with registrations %s the lookup for %s %s returned %s, the rule (patterns of the layer\'s own type only) gives %s'
                                           % ([(tlabel(t), getattr(c, '__name__', None), tag) for t, c, tag in sel], tlabel(ty), ls, got, want))
 
+    # ---- (f) a specification and its deep copies are independent objects: patterns registered on a copy answer lookups on
+    #          the copy only (rule on the union), the original (and sibling copies) keep following the rule on their own
+    #          registrations; (g) the 'zero' default is a ZERO cost at every lookup, also after a caller accumulated in place
+    #          on a cost it obtained earlier
+    import copy as _copy
+    f_tags = {}
+
+    def _mk(tag):
+        f_tags[tag] = (lambda t: (lambda s_: t))(tag)
+        return f_tags[tag]
+
+    def _look(sp, ty, ls):
+        try:
+            fn = sp[(ty, ls)]
+        except KeyError:
+            return -2
+        return next((t for t, f in f_tags.items() if f is fn), -1 if fn is sp.default else -3)
+    dw3 = {'in_channels': 4, 'out_channels': 4, 'groups': 4, 'kernel_size': (3, 3)}
+    plain5 = {'in_channels': 3, 'out_channels': 6, 'groups': 1, 'kernel_size': (5, 5)}
+    for default in ('zero', 'fail'):
+        for base_regs in ([(None, 1)], [(None, 1), (pt.conv_dw_constraint, 2)], []):
+            for extra in ([(pt.conv_dw_constraint, 5)], [(pt.conv_3_constraint, 6)], [(None, 7)], [(pt.conv_dw_constraint, 5), (pt.conv_3_constraint, 6)]):
+                base = cs.CostSpec(default_behavior=default)
+                for c_, tag in base_regs:
+                    base[(nn.Conv2d, c_)] = _mk(tag)
+                try:
+                    cp, sib = _copy.deepcopy(base), _copy.deepcopy(base)
+                except Exception as e:
+                    ctx.notes.append('copy.deepcopy(CostSpec) raised %s: stream (f) skipped' % type(e).__name__)
+                    break
+                for c_, tag in extra:
+                    cp[(nn.Conv2d, c_)] = _mk(tag)
+                for ls in (dw3, plain5):
+                    def want(regs):
+                        sat = [t for c_, t in regs if c_ is not None and c_(ls)]
+                        un = [t for c_, t in regs if c_ is None]
+                        return -2 if len(sat) >= 2 else sat[0] if sat else un[-1] if un else -1
+                    # functions are compared by identity: deep copies may clone them, so tags are resolved through a call
+                    def look_tag(sp):
+                        try:
+                            fn = sp[(nn.Conv2d, ls)]
+                        except KeyError:
+                            return -2
+                        if fn is sp.default or getattr(fn, '__name__', '') in ('cost_spec_zero_fn', 'cost_spec_fail_fn'):
+                            return -1
+                        try:
+                            return fn(ls)
+                        except Exception:
+                            return -3
+                    got = {'original': look_tag(base), 'copy': look_tag(cp), 'sibling-copy': look_tag(sib)}
+                    exp = {'original': want(base_regs), 'copy': want(base_regs + extra), 'sibling-copy': want(base_regs)}
+                    ctx.case(('copies', default, repr([(getattr(c_, '__name__', None), t) for c_, t in base_regs]), repr([(getattr(c_, '__name__', None), t) for c_, t in extra]), repr(ls)), nontrivial=True, kind='deep-copies')
+                    ctx.corr += 3
+                    if got != exp:
+                        ctx.violation('lookup-differs-from-rule:registration-on-a-deep-copy', {'copies': {'registered_on_original': [(getattr(c_, '__name__', None), t) for c_, t in base_regs],
+                                                                                                       'registered_on_copy_after_deepcopy': [(getattr(c_, '__name__', None), t) for c_, t in extra],
+                                                                                                       'layer_spec': ls, 'default': default}, 'impl_outcome': got, 'rule_outcome': exp},
+                                      'after copy.deepcopy(spec) and registrations %s on the copy, lookups for Conv2d %s give %s, the rule on each object\'s own registrations gives %s'
+                                      % ([(getattr(c_, '__name__', None), t) for c_, t in extra], ls, got, exp))
+    for ty, ls in ((nn.Linear, {'in_features': 8, 'out_features': 4}), (nn.Conv2d, plain5)):
+        sp = cs.CostSpec(default_behavior='zero')
+        sp[(nn.Conv1d, None)] = _mk(9)
+        vals = []
+        for rnd in range(3):
+            v = sp[(ty, ls)](ls)
+            vals.append(float(v))
+            try:
+                v += 421.0          # a caller accumulating a total in place on the cost it was handed
+            except Exception:
+                pass
+        other = float(cs.CostSpec(default_behavior='zero')[(ty, ls)](ls))
+        ctx.case(('default-zero', ty.__name__), nontrivial=True, kind='default-value')
+        ctx.corr += 1
+        if vals != [0.0, 0.0, 0.0] or other != 0.0:
+            ctx.violation('default-cost-not-zero', {'default_value': {'type': ty.__name__, 'layer_spec': ls, 'successive_default_costs': vals, 'default_cost_of_a_new_specification': other}},
+                          'the zero default of a specification returned %s on successive lookups for %s (a caller added 421 in place to each returned value), and %s on a new specification' % (vals, ty.__name__, other))
+
     # ---- (e) registrations interleaved with lookups on one CostSpec object: every lookup must equal the lookup on a
     #          fresh object with the registrations made so far (and the model on that prefix)
     specs_by_type = {t: constraints_for(t, pt)[1] for t in TYPES}
@@ -494,6 +571,53 @@ def run(ctx):
 def replay(r):
     torch, nn, cs, pt = _env()
     c = r.get('case')
+    if 'copies' in r or 'default_value' in r:
+        import copy as _copy
+        if 'default_value' in r:
+            d = r['default_value']
+            ty = getattr(nn, d['type'])
+            ls = {k: (tuple(v) if isinstance(v, list) else v) for k, v in d['layer_spec'].items()}
+            sp = cs.CostSpec(default_behavior='zero')
+            vals = []
+            for _ in range(3):
+                v = sp[(ty, ls)](ls)
+                vals.append(float(v))
+                try:
+                    v += 421.0
+                except Exception:
+                    pass
+            other = float(cs.CostSpec(default_behavior='zero')[(ty, ls)](ls))
+            print('successive default costs', vals, 'new specification', other, '-> required: all zero')
+            return 0 if vals == [0.0, 0.0, 0.0] and other == 0.0 else 1
+        d = r['copies']
+        ls = {k: (tuple(v) if isinstance(v, list) else v) for k, v in d['layer_spec'].items()}
+        mk = lambda t: (lambda s_: t)
+        base_regs = [(None if n is None else getattr(pt, n), t) for n, t in d['registered_on_original']]
+        extra = [(None if n is None else getattr(pt, n), t) for n, t in d['registered_on_copy_after_deepcopy']]
+        base = cs.CostSpec(default_behavior=d['default'])
+        for c_, t in base_regs:
+            base[(nn.Conv2d, c_)] = mk(t)
+        cp, sib = _copy.deepcopy(base), _copy.deepcopy(base)
+        for c_, t in extra:
+            cp[(nn.Conv2d, c_)] = mk(t)
+
+        def want(regs):
+            sat = [t for c_, t in regs if c_ is not None and c_(ls)]
+            un = [t for c_, t in regs if c_ is None]
+            return -2 if len(sat) >= 2 else sat[0] if sat else un[-1] if un else -1
+
+        def look(sp):
+            try:
+                fn = sp[(nn.Conv2d, ls)]
+            except KeyError:
+                return -2
+            if fn is sp.default or getattr(fn, '__name__', '') in ('cost_spec_zero_fn', 'cost_spec_fail_fn'):
+                return -1
+            return fn(ls)
+        got = {'original': look(base), 'copy': look(cp), 'sibling-copy': look(sib)}
+        exp = {'original': want(base_regs), 'copy': want(base_regs + extra), 'sibling-copy': want(base_regs)}
+        print('lookups', got, 'rule on each object\'s own registrations', exp)
+        return 0 if got == exp else 1
     if not c and 'registrations' in r and 'lookup_type' in r:
         # sub-class / same-name streams: rebuild the classes from their labels
         import importlib
